@@ -10,7 +10,7 @@
 // records what it sees: per caller N(ot entered) / s (blocked in <-startedCh) / P (past the
 // startedCh wait, parked before the second critical section) / d (blocked in <-doneCh) /
 // R(eturned); per started Run cycle B (blocked in its select) / X (left the select, parked
-// in done() before close(doneCh)) / F (Run returned); and whether StopCh() is closed.
+// at the harness gate before the deferred done()) / F (Run returned); and whether StopCh() is closed.
 //
 // Waits are taken eagerly: a goroutine released into a wait whose channel is already closed
 // runs through to its next gate.  A satisfied wait changes no shared state and can never be
@@ -62,7 +62,7 @@ const (
 
 var pointCode = map[string]int32{
 	"stop:sec1": ptSec1, "stop:started": ptStarted, "stop:sec2": ptSec2,
-	"started:sec": ptStartedSec, "done:close": ptDoneClose,
+	"started:sec": ptStartedSec,
 }
 
 type gor struct {
@@ -111,7 +111,7 @@ func yield(point string) {
 	}
 	g := v.(*gor)
 	code := pointCode[point]
-	if code == ptStarted || code == ptDoneClose {
+	if code == ptStarted {
 		g.park(code)
 		return
 	}
@@ -136,14 +136,18 @@ func (g *gor) release() {
 	g.gate <- struct{}{}
 }
 
-// runCycle is Run() of a runnable built on StartStop, exactly as the bundled ones use it.
-func runCycle(lc *lifecycle.StartStop, other <-chan struct{}) {
+// runCycle is Run() of a runnable built on StartStop, exactly as the bundled ones use it:
+// Started first, done deferred, StopCh in the main select.  The Run body is harness code, so
+// the gate before the deferred done() is a harness gate (the library has no yield point
+// there): LDone = the director releases it, Run returns, done() runs to completion.
+func runCycle(g *gor, lc *lifecycle.StartStop, other <-chan struct{}) {
 	done := lc.Started()
 	defer done()
 	select {
 	case <-lc.StopCh():
 	case <-other:
 	}
+	g.park(ptDoneClose)
 }
 
 func newExec(K, M int) *exec {
@@ -175,7 +179,7 @@ func newExec(K, M int) *exec {
 	e.runner = mk(func(g *gor) {
 		for r := 0; r < M; r++ {
 			g.park(ptRunEnter)
-			runCycle(e.lc, e.other[r])
+			runCycle(g, e.lc, e.other[r])
 			g.fin.Store(int32(r + 1))
 		}
 	})
